@@ -61,8 +61,10 @@ def obs_listby(t, by, form, again=None, k=0, idcol='p'):
         t = {'cols': t['cols'], 'rows': [dict(r, **{col: v}) for r, v in zip(t['rows'], again)]}
     o = {'op': 'listby', 't': t, 'by': by, 'form': form, 'idcol': idcol, 'raised': '', 'out': {'cols': [], 'rows': []}, 'unl': {'cols': [], 'rows': []}, 'colcmp': [], 'after': {}}
     try:
+        o['stage'] = 'listby'
         res = d.listby(*spell(by, form))
         o['out'] = proj(res, ids)
+        o['stage'] = 'unlist'
         unl = res.unlist()
         o['unl'] = proj(unl, ids)
         o['colcmp'] = [[safe_cmp(dict.__getitem__(unl, c)[p], dict.__getitem__(unl, c)[p + 1]) for c in by] for p in range(len(unl) - 1)]
@@ -77,8 +79,10 @@ def obs_groupby(t, by, form, grp='grp'):
     ids = IdMap(); d = table_from(t, ids)
     o = {'op': 'groupby', 't': t, 'by': by, 'form': form, 'grp': grp, 'raised': '', 'out': {'cols': [], 'rows': []}, 'ung': {'cols': [], 'rows': []}, 'ung2': True, 'after': {}}
     try:
+        o['stage'] = 'groupby'
         res = d.groupby(*spell(by, form)) if grp == 'grp' else d.groupby(*spell(by, form), grp=grp)
         o['out'] = proj(res, ids)
+        o['stage'] = 'ungroup'
         o['ung'] = proj(res.ungroup() if grp == 'grp' else res.ungroup(grp), ids)
         o['ung2'] = proj(res.ungroup() if grp == 'grp' else res.ungroup(grp=grp), ids) == o['ung']     # a second ungroup of the same grouped table
     except Exception as e:
@@ -93,10 +97,13 @@ def obs_pivot(t, x, form, y, z, agg, k=0):
     o = {'op': 'pivot', 't': t, 'x': x, 'form': form, 'y': y, 'z': z, 'agg': agg, 'raised': '', 'out': {'cols': [], 'rows': []}, 'unp': {'cols': [], 'rows': []}, 'after': {}}
     try:
         xa = x[0] if form == 'name' else list(x)
+        o['stage'] = 'pivot'
         res = (d.pivot if k % 3 else d.xyz)(xa, y, z, AGG[agg])
         o['out'] = proj(res, ids)
         if agg == 'last':
+            o['stage'] = 'unpivot'
             unp = res.unpivot(xa, y, z)
+            o['stage'] = 'unpivot_exc_none'
             unp = unp.exc(**{z: None})
             o['unp'] = proj(unp, ids)
     except Exception as e:
@@ -223,7 +230,7 @@ def run(ctx):
         case = {k: o[k] for k in ('op', 't', 'by', 'form', 'idcol', 'grp', 'x', 'y', 'z', 'agg') if k in o}
         if o['op'] == 'pivot':
             case['y_nan_objects'] = nan_objects(o['t'], o['y'])
-        ctx.violation(clause, case, {k: o[k] for k in ('out', 'unl', 'ung', 'unp', 'colcmp', 'raised', 'after') if k in o})
+        ctx.violation(clause, case, {k: o[k] for k in ('stage', 'out', 'unl', 'ung', 'unp', 'colcmp', 'raised', 'after') if k in o})
     ctx.sample({'observation': obs[1]})
     ctx.sample({'observation_pivot': next(o for o in reversed(obs) if o['op'] == 'pivot')})
     ctx.exhaustive = False
